@@ -137,6 +137,16 @@ CHECKS["C15"] = dict(
          "enumeration, not an all-values claim. Trusted: z3, CrossHair models of bytes/str/int.",
     design="3 (C15)", technique=CH)
 
+CHECKS["C16"] = dict(
+    text="Differential bounded symbolic execution: operation, call shape (positional/keyword, noreply omitted or explicit), "
+         "noreply, server state and argument preset are symbolic indices; the same call expression runs on Client and on "
+         "PooledClient / HashClient(1 server, pooled or not) / RetryingClient(Client), each against its own memcached model; "
+         "parsed command streams, result (value and type) or exception class, and socket timeouts must agree. The "
+         "configuration (prefix, default_noreply, encoding, serde, timeouts) is the shard. All shards exhaust.",
+    note="Everything is concrete once the indices are chosen, so the solver's role is complete enumeration of the index space "
+         "(20 operation groups x <=4 shapes x 3 noreply x 4 states x 4 presets). " + NETNOTE,
+    design="3 (C16)", technique=CH)
+
 NOT_YET = {}
 
 NA_REASON_PENDING = "check not built yet in this session (planned; see DESIGN.md section 3)"
